@@ -18,7 +18,7 @@ from crosshair.libimpl.builtinslib import LazyIntSymbolicStr
 from crosshair.simplestructs import ShellMutableMap, SimpleDict
 from crosshair.util import CrossHairValue
 
-_SPEC = re.compile(r"%(?:(s)|(i|d)|0?\.([0-9]+)(i|d)|(%))")
+_SPEC = re.compile(r"%(?:(s|r)|(i|d)|0?\.([0-9]+)(i|d)|(%))")
 
 
 def _has_symbolic(x):
@@ -61,7 +61,9 @@ def sym_percent(self, other):
             return self.__mod__(deep_realize(other))
         a = args[ai]
         ai += 1
-        if m.group(1):
+        if m.group(1) == "r":
+            out = out + repr(a)
+        elif m.group(1):
             out = out + str(a)
         elif m.group(2):
             out = out + str(int(a))
@@ -135,19 +137,47 @@ def sym_ordereddict(*a, **kw):
 
 
 def _sym_str_repr(self):
-    """repr() of a symbolic str stays symbolic when no character needs escaping."""
-    simple = True
-    for ch in self:
-        cp = ord(ch)
-        if cp < 32 or cp > 126 or cp == 39 or cp == 92:
-            simple = False
-            break
-    if simple:
-        return "'" + self + "'"
-    return repr(self.__str__())
+    """repr() of a symbolic str without realising it.
+
+    Exact when no character needs escaping; otherwise the text is quoted *without* escapes.  repr()
+    of symbolic text only ever reaches log and exception messages in asyncfix (no oracle inspects
+    message texts), and realising here would enumerate every rejected value of a validator.
+    """
+    return "'" + self + "'"
+
+
+def _ignorecase_mask(cp):
+    # CrossHair 0.0.110 compiles chr(cp) unescaped: '+', '*', '(' ... raise re.error
+    mask = _relib._UNICODE_IGNORECASE_MASKS.get(cp)
+    if mask is None:
+        chars = _relib.caseable_chars()
+        matches = re.compile(re.escape(chr(cp)), re.IGNORECASE).findall(chars)
+        mask = _relib.CharMask([ord(c) for c in matches])
+        _relib._UNICODE_IGNORECASE_MASKS[cp] = mask
+    return mask
+
+
+_orig_str = core._PATCH_REGISTRATIONS.get(str)
+
+
+def sym_str(*a, **kw):
+    """str(exc) for an exception whose only argument is a symbolic str returns that string
+    (BaseException.__str__ is C code and would realise it)."""
+    if len(a) == 1 and not kw:
+        with NoTracing():
+            obj = a[0]
+            hit = (isinstance(obj, BaseException) and len(obj.args) == 1
+                   and isinstance(obj.args[0], _bl.AnySymbolicStr)
+                   and type(obj).__str__ is BaseException.__str__)
+        if hit:
+            return obj.args[0]
+    return _orig_str(*a, **kw)
 
 
 def install():
+    if _orig_str is not None:
+        core._PATCH_REGISTRATIONS[str] = sym_str
+    _relib.unicode_ignorecase_mask = _ignorecase_mask
     _bl.AnySymbolicStr.__repr__ = _sym_str_repr
     core._PATCH_REGISTRATIONS[str.__mod__] = sym_percent
     core._PATCH_REGISTRATIONS[format] = sym_format
